@@ -152,6 +152,14 @@ def address_check(chk: Check, repo: Repo) -> None:
         chk.ob("address-check-cell", fi.site(), got == want, f"connect={connect} probe={probe} teardown={teardown}: returns {sorted(map(str, got))}; reference occupied={occupied} (a refusal at any stage means the address is in use)", key=f"check|{connect}|{probe}|{teardown}" + ("" if got == want else f"|{sorted(map(str, got))}"))
 
 
+def _is_bc_receive(c: ast.Call, env, am) -> bool:
+    """`<the broadcast context>.receive(...)`, whatever the `async with ... as <name>` target is called"""
+    if not (isinstance(c.func, ast.Attribute) and c.func.attr == "receive"):
+        return False
+    v = am.ev(c.func.value, env, {})
+    return isinstance(v, Obj) and v.cls == "BroadcastContext"
+
+
 def address_read(chk: Check, repo: Repo) -> None:
     fi = repo.func(f"{NET}.nm_individual_address_read", "nm_individual_address_read")
     chk.unit(fi)
@@ -160,9 +168,11 @@ def address_read(chk: Check, repo: Repo) -> None:
     A, B_, X = (Obj("Telegram", t, (("payload", Obj(pc, "p")), ("source_address", Obj("IndividualAddress", t)))) for t, pc in (("A", "IndividualAddressResponse"), ("B", "IndividualAddressResponse"), ("X", "IndividualAddressSerialResponse")))
     for label, results in (("no response", ()), ("one response", (A,)), ("two responses", (A, B_)), ("unrelated then response", (X, A)), ("three responses", (A, X, B_))):
         for flag in (False, True):
+            box0: dict = {}
+
             def cm(c, env):
                 n = call_name(c)
-                if n == "bc_context.receive":
+                if _is_bc_receive(c, env, box0["am"]):
                     return [Outcome(None, results)]
                 if n.endswith("management.send_broadcast"):
                     return [Outcome(f"BROADCAST({call_name(c.args[0]) if c.args and isinstance(c.args[0], ast.Call) else '?'})", None)]
@@ -170,6 +180,7 @@ def address_read(chk: Check, repo: Repo) -> None:
                     return [Outcome(None, Obj("BroadcastContext", "bc"))]
                 return None
             am = AbsMachine(cfg, exc, cm)
+            box0["am"] = am
             am.isinstance_fn = class_isinstance(repo)
             paths = Explorer(cfg, repo, am.step).run(cfg.entry, [], {"raise_if_multiple": flag, "timeout": 3})
             got = {(repr(p.env.get("#ret")) if p.end_kind == "exit" else f"raise {p.env.get('#raised')}", tuple(t for t in p.env.get("trace", ()) if t.startswith("BROADCAST"))) for p in paths}
@@ -201,7 +212,7 @@ def serial(chk: Check, repo: Repo) -> None:
         def cm(c, env):
             n = call_name(c)
             am = box["am"]
-            if n == "bc_context.receive":
+            if _is_bc_receive(c, env, am):
                 return [Outcome(None, results)]
             if n == "apci.IndividualAddressSerialRead":
                 return [Outcome(None, Obj("IndividualAddressSerialRead", "r", tuple(_kw(c, am, env).items())))]
